@@ -346,8 +346,22 @@ func (o *oracles) checkRefcounts(final bool) {
 	}
 	jobHolds := false // a job may hold or have created files the harness cannot see
 	for _, j := range o.s.jobs {
-		_ = j
 		jobHolds = true
+		// a job works on the index files that were served when it was started
+		// (every job takes its copy of the list with a lock on each file): they
+		// must stay on disk until its completion has been applied
+		if !j.filesSet {
+			j.filesSet = true
+			j.files = append([]string(nil), st.Indexes...)
+			continue
+		}
+		for _, f := range j.files {
+			if !onDisk[f] {
+				if o.violate("refcount", "job-file-deleted", fmt.Sprintf("index file %s was served when job %s was started (step %d) and was deleted while the job is still in flight", f, j.name(), j.spawnStep)) {
+					return
+				}
+			}
+		}
 	}
 	for f := range onDisk {
 		want := viewCount[f]
